@@ -535,6 +535,7 @@ type cutServer struct {
 	framing int
 	fin     bool // cut by a clean close (FIN) instead of a reset (RST)
 	bare    bool // error responses without a body (Content-Length: 0)
+	etag    string // when set: sent as ETag on every 200/206 and answered to HEAD requests (the cache's index path)
 	// what happened, for the expectations handed to Coq
 	effCuts  int  // connections actually cut
 	corner   bool // a connection cut after its last body byte, before the end marker
@@ -542,6 +543,13 @@ type cutServer struct {
 }
 
 func (s *cutServer) ServeHTTP(w http.ResponseWriter, r *http.Request) {
+	if r.Method == http.MethodHead {
+		if s.etag != "" {
+			w.Header().Set("ETag", s.etag)
+		}
+		w.Header().Set("Content-Length", strconv.Itoa(len(s.data)))
+		return
+	}
 	s.mu.Lock()
 	off := -1
 	if h := r.Header.Get("Range"); h != "" {
@@ -587,13 +595,17 @@ func (s *cutServer) ServeHTTP(w http.ResponseWriter, r *http.Request) {
 		}
 		cut = -1
 	}
+	et := ""
+	if s.etag != "" && (status == 200 || status == 206) {
+		et = "ETag: " + s.etag + "\r\n"
+	}
 	switch framing {
 	case frLength:
-		fmt.Fprintf(buf, "HTTP/1.1 %d X\r\nContent-Length: %d\r\nConnection: close\r\n\r\n", status, len(body))
+		fmt.Fprintf(buf, "HTTP/1.1 %d X\r\n%sContent-Length: %d\r\nConnection: close\r\n\r\n", status, et, len(body))
 	case frChunked:
-		fmt.Fprintf(buf, "HTTP/1.1 %d X\r\nTransfer-Encoding: chunked\r\nConnection: close\r\n\r\n", status)
+		fmt.Fprintf(buf, "HTTP/1.1 %d X\r\n%sTransfer-Encoding: chunked\r\nConnection: close\r\n\r\n", status, et)
 	case frClose:
-		fmt.Fprintf(buf, "HTTP/1.1 %d X\r\nConnection: close\r\n\r\n", status)
+		fmt.Fprintf(buf, "HTTP/1.1 %d X\r\n%sConnection: close\r\n\r\n", status, et)
 	}
 	send := func(b []byte) {
 		if framing != frChunked {
@@ -814,7 +826,7 @@ func main() {
 	out := flag.String("out", "", "cases directory")
 	seed := flag.Uint64("seed", 1, "seed")
 	tier := flag.String("tier", "quick", "tier")
-	stage := flag.String("stage", "scripted", "scripted|http")
+	stage := flag.String("stage", "scripted", "scripted|http|index")
 	_ = flag.String("replay", "", "unused: cases are regenerated from the seed")
 	flag.Parse()
 	var err error
@@ -823,6 +835,8 @@ func main() {
 		err = scriptedStage(*out, *seed, *tier)
 	case "http":
 		err = httpStage(*out, *seed, *tier)
+	case "index":
+		err = indexStage(*out, *seed, *tier)
 	}
 	if err != nil {
 		fmt.Fprintln(os.Stderr, err)
